@@ -87,6 +87,8 @@ func (e *Engine) genWrite(t *rapid.T) Op {
 	}
 }
 
+const wideFan = "0123456789ABCDEFGHIJKLMNOPQRSTUVWXYZabcdefghijklmnopqrs"
+
 var snapKinds = []string{"router-iter", "txn-iter", "view", "txn-snapshot"}
 
 // GenOp draws the next operation given the engine's current state.
@@ -199,6 +201,17 @@ func RunRapid(t *rapid.T, kind string, cfg Cfg, g GenCfg, after func(e *Engine, 
 		t.Fatalf("%v", err)
 	}
 	fail(e.CheckState())
+	if gen.Chance(t, 1, 16, "widefan") {
+		// one history in sixteen starts on a node with more than 50 children (where child search and edge updates switch
+		// algorithm): 55 sibling routes registered by one managed transaction; later writes aim below existing keys
+		op := Op{Kind: "updates", End: "ok"}
+		for _, c := range wideFan {
+			op.Body = append(op.Body, Op{Kind: "handle", Method: e.Cfg.Methods[0], Pattern: "/w/" + string(c)})
+		}
+		h.Ops = append(h.Ops, op)
+		fail(e.Step(op))
+		stats.Class("history-starts-on-a-node-with-55-children")
+	}
 	t.Repeat(map[string]func(*rapid.T){
 		"step": func(t *rapid.T) {
 			op := e.GenOp(t, g)
